@@ -347,7 +347,8 @@ class Session(BaseSession):
                 # We don't want the file to be closed when exiting this function
                 file.detach()
 
-        except (ListingError, ValueError) as error:
+        except (ListingError, ValueError, LookupError) as error:
+            # LookupError: a malformed row missing an expected column
             raise ProtocolError(*error.args) from error
 
         self._response.files = listings
